@@ -26,7 +26,8 @@ class VLoop(asyncio.SelectorEventLoop):
 class RTSim(mosaik_api_v3.Simulator):
     def __init__(self):
         super().__init__({'api_version': '3.0', 'type': 'time-based', 'models': {'M': {'public': True, 'params': [], 'attrs': ['i', 'po', 'ti']}}})
-    def init(self, sid, time_resolution=1.0, step_size=1, duration=0.0, typ='time-based', events=None, self_steps=True, flag=True, external=None, durations=None, setup_delay=0.0):
+    def init(self, sid, time_resolution=1.0, step_size=1, duration=0.0, typ='time-based', events=None, self_steps=True, flag=True, external=None, durations=None, setup_delay=0.0, none_at=None):
+        self.none_at = set(none_at or [])       # step times whose reply is None whatever self_steps says (C13's real-time family)
         self.setup_delay = setup_delay        # setup_done() takes that long (a simulator that loads data before the run starts)
         self.durs = durations or {}        # per step time: how long that step takes (overrides duration)
         self.sid = sid; self.ss = step_size; self.dur = duration; self.events = dict(events or {}); self.self_steps = self_steps
@@ -56,6 +57,7 @@ class RTSim(mosaik_api_v3.Simulator):
         d = self.durs.get(str(t), self.dur)
         if d: yield asyncio.sleep(d)
         LOG.append(('END', self.sid, t, asyncio.get_event_loop().time()))
+        if t in self.none_at: return None
         return (t + self.ss) if self.self_steps else None
     def get_data(self, outputs): return {'e': {'po': 0}}
 
@@ -67,7 +69,7 @@ def trial(cfg):
     w = mosaik.World({'S': {'python': 'harness.props.c17:RTSim'}}, skip_greetings=True, asyncio_loop=loop, time_resolution=cfg['res'])
     ents = []
     for i, s in enumerate(cfg['sims']):
-        kw = dict(step_size=s.get('step_size', 1), duration=s.get('duration', 0.0), typ=s.get('typ', 'time-based'), events=s.get('events'), self_steps=s.get('self_steps', True), flag=s.get('flag', True), external=s.get('external'), durations=s.get('durations'), setup_delay=s.get('setup_delay', 0.0))
+        kw = dict(step_size=s.get('step_size', 1), duration=s.get('duration', 0.0), typ=s.get('typ', 'time-based'), events=s.get('events'), self_steps=s.get('self_steps', True), flag=s.get('flag', True), external=s.get('external'), durations=s.get('durations'), setup_delay=s.get('setup_delay', 0.0), none_at=s.get('none_at'))
         if s.get('group'):
             with w.group(): ents.append(w.start('S', sim_id=f'S{i}', **kw).M())
         else:
